@@ -612,3 +612,9 @@ mod test {
         run_msm_cross::<G1Affine>(14, 18);
     }
 }
+
+/// Verification hook: exposes the private Booth-window slicing to the correspondence harness.
+#[cfg(feature = "verif-hooks")]
+pub fn verif_get_booth_index(window_index: usize, window_size: usize, el: &[u8]) -> i32 {
+    get_booth_index(window_index, window_size, el)
+}
